@@ -541,3 +541,44 @@ Definition u_score_to_simple (a : sx) : sx :=
                 | _, _ => bad_input end
   | _ => bad_input
   end.
+
+(* ------------------------------------------------------------------ C15 *)
+From VL Require Import Model.Overhang.
+
+(* evaluator spec: (0 divisor) highest averages | (1) largest remainder, hare *)
+Definition oh_eval (ev : sx) (votes : list (C * Q)) (prev : list (C * Z)) (n : Z) : option (list (C * Z)) :=
+  match ev with
+  | L [A 0; dv] =>
+      match as_divisor dv with
+      | Some d => match HighestAverages.evaluate d votes n prev [] with
+                  | HA_ok gains None => Some gains
+                  | _ => None end
+      | None => None end
+  | L [A 1] =>
+      match lr_evaluate Model.Quota.hare true PError votes n prev [] with
+      | LR_ok sel => if existsb (fun kv => match fst kv with KT _ => true | _ => false end) sel then None
+                     else Some (flat_map (fun kv => match fst kv with K c => [(c, snd kv)] | _ => [] end) sel)
+      | _ => None end
+  | _ => None
+  end.
+
+(* args: (kind evaluator votes n prev) ; kind 0 allow 1 level -> (adj final_gains) *)
+Definition u_overhang (a : sx) : sx :=
+  match a with
+  | L [A k; ev; v; A n; p] =>
+      match as_dict as_pos as_Q v, as_dict as_pos as_Z p with
+      | Some votes, Some prev =>
+          let E := oh_eval ev votes [] in
+          let adj := if (k =? 0)%Z then allow_overhang E n prev else level_overhang E 400 n prev in
+          match adj with
+          | None => unmodelled
+          | Some adj =>
+              match oh_eval ev votes prev (n + adj) with
+              | Some final => ok (L [A adj; of_dict of_pos A final])
+              | None => ok (L [A adj; L [A (-1)]])
+              end
+          end
+      | _, _ => bad_input
+      end
+  | _ => bad_input
+  end.
